@@ -10,23 +10,36 @@
 (*   "cost":c,"rcost":r,"lcost":l}                                          *)
 (* The oracle is the pairwise Bellman layer L1 of OrderedOps (equated with *)
 (* explicit enumeration by TLC on the bounded domain).  The expectation of *)
-(* an input is computed once and kept in `memo` while the following events *)
-(* concern the same input.                                                 *)
+(* an input is computed once (tables indexed by the first event about it). *)
 (***************************************************************************)
 EXTENDS OrderedOps, Json, IOUtils, TLCExt
 
 Log == ndJsonDeserialize(IOEnv.TRACE_FILE)
 
-VARIABLES l, memo
-vars == <<l, memo>>
+(***************************************************************************)
+(* TLC re-evaluates operator arguments and LET definitions that sit under  *)
+(* operator parameters at every use; everything expensive is therefore     *)
+(* materialised once, at constant level, in tables indexed by the event    *)
+(* number, and handed to the operators as cheap look-ups.                  *)
+(***************************************************************************)
+KeyOf(i) == IF Log[i].op = "solve" THEN <<Log[i].in, Log[i].algo>> ELSE <<i>>
+RECURSIVE FirstOf(_)
+FirstOf(i) == IF i > 1 /\ KeyOf(i - 1) = KeyOf(i) THEN FirstOf(i - 1) ELSE i
+IsFirst(i) == Log[i].op = "solve" /\ Log[i].exc = "" /\ FirstOf(i) = i
+EvI == [i \in DOMAIN Log |-> Info(Log[i].in.st)]
+EvOI == [i \in DOMAIN Log |-> Info(Log[i].in.ot)]
+EvLca == [i \in DOMAIN Log |-> LcaMap(Log[i].in.ot, EvOI[i], EvI[i], Log[i].in.lm)]
+EvOrders == [i \in DOMAIN Log |-> IF IsFirst(i) THEN RootOrders(Log[i].in) ELSE {}]
+EvTab == [i \in DOMAIN Log |-> [p \in EvOrders[i] |->
+            OrdTable(Log[i].in, EvI[i], EvOI[i], EvLca[i], Log[i].algo = "base", p)]]
+EvPer == [i \in DOMAIN Log |-> [p \in EvOrders[i] |->
+            OrdPerM(Log[i].in, p, EvTab[i][p], OrdRootMin(EvTab[i][p]))]]
+EvMin == [i \in DOMAIN Log |-> SetMin({EvPer[i][p].min : p \in EvOrders[i]})]
+EvExp == [i \in DOMAIN Log |-> IF IsFirst(i) THEN OrdExpP(EvOrders[i], EvPer[i], EvMin[i]) ELSE <<>>]
+ExpAt(i) == EvExp[FirstOf(i)]
 
-NoMemo == [key |-> <<>>, val |-> <<>>]
-KeyOf(e) == IF e.op = "solve" THEN <<e.in, e.algo>> ELSE <<>>
-Memo(old, e) ==
-  IF e.op # "solve" \/ e.exc # "" THEN old
-  ELSE IF old.key = KeyOf(e) THEN old
-  ELSE [key |-> KeyOf(e),
-        val |-> OrdExpected(e.in, Info(e.in.st), Info(e.in.ot), e.algo = "base")]
+VARIABLES l
+vars == <<l>>
 
 TotalSol(inp, n, sol) ==
   /\ Len(sol.m) = Len(inp.ot) /\ Len(sol.lab) = Len(inp.ot)
@@ -64,18 +77,40 @@ EvalClauses(e) ==
      \cup (IF ValidOrd(inp, I, sol) /\ e.lcost # LabCostOrd(inp, I, sol) THEN {"ClauseLabelingCost"} ELSE {})
      \cup (IF ValidOrd(inp, I, sol) /\ e.cost # CostOrd(inp, I, sol) THEN {"ClauseTotalCost"} ELSE {})
 
-Clauses(e, m) == IF e.op = "solve" THEN SolveClauses(e, m.val)
-                 ELSE IF e.op = "eval" THEN EvalClauses(e) ELSE {"ClauseUnknownOp"}
 
-Judge(e, m) ==
-  LET bad == Clauses(e, m) IN
+(***************************************************************************)
+(* Inputs with polytomies: {"op":"poly","refs":[binary inputs, one per pair *)
+(* of refinements],"sols":[{"ot","st","lm","syn","m","lab"}],"costs":[..]}  *)
+(* Every solution must be a valid solution of one of the listed refined    *)
+(* inputs, and its cost the minimum over all of them.                      *)
+(***************************************************************************)
+SolIn(e, s) == [ot |-> s.ot, st |-> s.st, lm |-> s.lm, c |-> e.in.c, syn |-> s.syn, root |-> e.in.root]
+SolOf2(s) == [m |-> s.m, lab |-> s.lab]
+EvRefMin == [i \in DOMAIN Log |-> IF Log[i].op = "poly" /\ Log[i].exc = ""
+                                   THEN SetMin({OrdExpected(Log[i].refs[r], Info(Log[i].refs[r].st), Info(Log[i].refs[r].ot), FALSE).min : r \in DOMAIN Log[i].refs}) ELSE 0]
+PolyClauses(e, i) ==
+  IF e.exc # "" THEN {"ClauseNoFailure"} ELSE
+  LET sols == e.sols
+      refset == {e.refs[r] : r \in DOMAIN e.refs}
+  IN (IF \E x \in DOMAIN sols : SolIn(e, sols[x]) \notin refset THEN {"ClauseRefinement"} ELSE {})
+     \cup (IF \E x \in DOMAIN sols : LET s == sols[x] IN ~ValidOrd(SolIn(e, s), Info(s.st), SolOf2(s)) THEN {"ClauseValid"} ELSE {})
+     \cup (IF \E x \in DOMAIN sols : LET s == sols[x] IN ValidOrd(SolIn(e, s), Info(s.st), SolOf2(s)) /\ CostOrd(SolIn(e, s), Info(s.st), SolOf2(s)) # e.costs[x]
+           THEN {"ClauseCostRecount"} ELSE {})
+     \cup (IF \E x \in DOMAIN sols : e.costs[x] # EvRefMin[i] THEN {"ClauseMinPoly"} ELSE {})
+     \cup (IF (Len(sols) = 0) # (EvRefMin[i] >= Inf) THEN {"ClauseEmptyIffNoSolution"} ELSE {})
+     \cup (IF e.notes # <<>> THEN {"ClauseRefinementKeepsNamesAndClades"} ELSE {})
+
+Clauses(i) == IF Log[i].op = "poly" THEN PolyClauses(Log[i], i) ELSE IF Log[i].op = "solve" THEN SolveClauses(Log[i], IF Log[i].exc = "" THEN ExpAt(i) ELSE <<>>)
+              ELSE IF Log[i].op = "eval" THEN EvalClauses(Log[i]) ELSE {"ClauseUnknownOp"}
+
+Judge(e, i) ==
+  LET bad == Clauses(i) IN
   IF bad = {} THEN TRUE
   ELSE PrintT(<<"VERDICT", e.n, bad>>) /\ TLCSet(1, TLCGet(1) + 1)
 
-Init == l = 1 /\ memo = NoMemo /\ TLCSet(1, 0)
+Init == l = 1 /\ TLCSet(1, 0)
 Next == /\ l <= Len(Log)
-        /\ memo' = Memo(memo, Log[l])
-        /\ Judge(Log[l], memo')
+        /\ Judge(Log[l], l)
         /\ l' = l + 1
 Spec == Init /\ [][Next]_vars
 
